@@ -170,6 +170,46 @@ func init() {
 			if res := c.ReverseOrderPass("mc-shim"); res != nil {
 				ctxCompareDigests(c, digests, res.Digests)
 			}
+			// floating-to-floating conversion preserves every value: lattices of all sign/exponent/top-
+			// mantissa patterns (NaN payloads aside), exact when not narrowing, float32(x) when narrowing
+			type ff struct {
+				s, d int
+				n    int64
+				at   func(int64) float64
+			}
+			for _, f := range []ff{{dyn.Float32, dyn.Float32, 2 * f32LatM, f32Lattice}, {dyn.Float32, dyn.Float64, 2 * f32LatM, f32Lattice},
+				{dyn.Float64, dyn.Float64, 2 * f64LatM, f64Lattice}, {dyn.Float64, dyn.Float32, 2 * f64LatM, f64Lattice}} {
+				f := f
+				c.ParallelFor(16, func(sh int) {
+					conv := dyn.ConvBlockCh(f.s, f.d, blockN, 1+sh%3)
+					in := make([]uint64, blockN)
+					out := make([]uint64, blockN)
+					lo, hi := f.n*int64(sh)/16, f.n*int64(sh+1)/16
+					var n int64
+					for i := lo; i < hi; {
+						k := 0
+						for ; k < blockN && i < hi; k, i = k+1, i+1 {
+							in[k] = math.Float64bits(f.at(i))
+						}
+						conv(in[:k], out[:k])
+						for j := 0; j < k; j++ {
+							x := math.Float64frombits(in[j])
+							want := x
+							if f.d == dyn.Float32 {
+								want = float64(float32(x))
+							}
+							if g := math.Float64frombits(out[j]); math.Float64bits(g) != math.Float64bits(want) {
+								cs := c05Case{S: tn(f.s), D: tn(f.d), C: 1, SP: 1, SL: 1, DP: 1, DL: 1}
+								c.Fail(cs, core.Failf("FloatAsFloat/float-value", "FloatAsFloat[%s,%s]: %v became %v, want %v (bit-exact; nearest float32 when narrowing; never clipped)", tn(f.s), tn(f.d), x, g, want))
+								return
+							}
+						}
+						n += int64(k)
+					}
+					c.Eval(n, n)
+					c.Add("float_to_float_lattice_values", n)
+				})
+			}
 			maxC, maxP := 3, 3
 			if !c.Quick() {
 				maxC, maxP = 4, 4
